@@ -27,6 +27,7 @@ ASSUMPTIONS = [
     "events are PluginEvent/UnplugEvent/RecomputeEvent with the library's precedences; timestamps from a small integer alphabet",
     "canonical state drops _timestep (no method reads it before overwriting it) and event identities (heap behaviour depends on (ts,precedence) only)",
     "bounded depth: behaviours needing longer operation sequences are outside the guarantee",
+    "second shape ('fill'): every add sequence of length 6 (thorough 7) over timestamps {0,1} x kinds, optional JSON dump, then a complete drain with get_event on original and restored queue",
 ]
 CHUNK = 8
 
@@ -231,6 +232,42 @@ def bfs(root_hist, depth, ops, acc: Acc):
     return frontier
 
 
+FILL_KINDS = [(ts, k) for ts in (0, 1) for k in KINDS]
+
+
+def run_fill(item):
+    """second exploration shape: every fill sequence of length n over (timestamp 0/1 x kind), optionally followed
+    by a JSON dump (the ORIGINAL keeps being used, the restored twin is drained next to it), then drained
+    completely with get_event - deep queues with many ties, which the BFS depth cannot reach"""
+    import itertools
+
+    acc = Acc()
+    n = item["n"]
+    seen = set()
+    for first in item["firsts"]:
+        for rest in itertools.product(range(len(FILL_KINDS)), repeat=n - 1):
+            seq = [first] + list(rest)
+            ops = [["add", FILL_KINDS[i][0], FILL_KINDS[i][1]] for i in seq]
+            for tail in (["json"], []):
+                full = ops + [[t] for t in tail] + [["get"]] * n
+                st, viol = exec_ops(full)
+                acc.transitions += len(full)
+                c = (tuple(seq), bool(tail))
+                for sig, what, obs, exp in viol:
+                    acc.violation(sig, what, {"ops": full}, obs, exp)
+                if st is not None:
+                    acc.outcome(("fill", len(st.model)))
+            heap = tuple(FILL_KINDS[i] for i in seq)
+            if heap not in seen:
+                seen.add(heap)
+                acc.state(("fill", heap))
+                if len(set(ts for ts, _ in heap)) < len(heap) - 1:
+                    acc.nt(("fill", heap))
+    acc.evals += acc.transitions
+    acc.sample({"fill_then_json_then_drain": n, "first": item["firsts"]}, cap=1)
+    return acc
+
+
 def space(tier, seed):
     """Parent-side BFS to split_depth; the de-duplicated frontier histories are the work items."""
     b = bounds(tier, seed)
@@ -240,10 +277,15 @@ def space(tier, seed):
     items = [{"root": hist, "depth": b["depth"] - b["split_depth"], "tier": tier} for _, hist in frontier]
     # the prefix part itself (depth <= split_depth) is checked by item 0
     items.insert(0, {"root": [], "depth": b["split_depth"], "tier": tier})
+    n = 6 if tier == "quick" else 7
+    for f in range(len(FILL_KINDS)):
+        items.append({"fill": True, "n": n, "firsts": [f], "tier": tier})
     return items
 
 
 def run(item):
+    if item.get("fill"):
+        return run_fill(item)
     acc = Acc()
     b = bounds(item["tier"], 0)
     ops = alphabet(b)
